@@ -72,6 +72,12 @@ for h in 3012c3c dc1be9d 7f8c4c6 474577c; do
 done
 
 
+# round-4 seeded change: pending deltas coalesced through a HashMap (only reached when one node
+# takes > 100 writes between two gossip rounds: generated scenarios + corpus case)
+echo "== (s4) seeded/C20-pending-deltas-coalesced-through-hashmap"
+git apply /work/sim/seeded/C20-pending-deltas-coalesced-through-hashmap/patch.diff
+run_check; git checkout -q .
+
 # mutations that are THE SAME IN EVERY PROCESS (an off-by-one in a harness's op generator): the
 # cross-process oracle is blind to them by construction, only the model's prediction disagrees.
 # One per modelled harness family; expected: `model-disagreement`, VIOLATION … no-failing-input-found
